@@ -196,8 +196,9 @@ theorem C01total_outside_ragged :
      | .ok _ => false
      | .error e => e == "ValueError") = true := by decide +kernel
 
-/-- `RTFBody(text_font_size=None)`: an explicit `None` for an attribute `TextContent` requires → `ValidationError`
-(the pagination falls back to 9 pt, the cell emitter does not) -/
+/-- `RTFBody(text_hyphenation=None)`: an explicit `None` for an attribute `TextContent` requires → `ValidationError`
+(likewise `text_font`, `text_font_size`, `text_indent_*`, `text_space*`, `text_convert`; `text_justification` on the
+flat text components) -/
 def exNone : Doc :=
   { exDoc with body := { exDoc.body with attrs := { exTbl with hyph := .null } } }
 
